@@ -113,6 +113,10 @@ type c15Visit struct {
 func runC15(cs *SCase, vis *c15Visit) (*CaseStats, error) {
 	st := newCaseStats()
 	l := NewLedger()
+	if len(cs.Ops)%3 == 0 {
+		l.ViaLedgerAPI = true // every third sequence length: registers reached through atree.LedgerBaseStorage
+		st.label("via_ledger_api")
+	}
 	// padding ids are committed from the start (never modified)
 	for i := c15Core; i < len(c15Universe); i++ {
 		l.Regs[c15Universe[i]] = c15Register(3)
@@ -165,7 +169,8 @@ func runC15(cs *SCase, vis *c15Visit) (*CaseStats, error) {
 				return fail("HasUnsavedChanges(%d) = %v, model %v", a, got, unsaved[addrOf(a)])
 			}
 		}
-		if got := s.Count(); got != len(m.base) {
+		// (LedgerBaseStorage does not implement segment counting: Count() is only compared on a direct base storage)
+		if got := s.Count(); got != len(m.base) && !l.ViaLedgerAPI {
 			return fail("Count() = %d, ledger has %d", got, len(m.base))
 		}
 		for i := 0; i < c15Core; i++ {
